@@ -21,7 +21,7 @@ func newVC(e *Engine, fn *ssa.Function, con *Contract, key string) *VC {
 }
 
 // GenFunc generates the obligations of one function under contract.
-func (e *Engine) GenFunc(key string, con *Contract) (vc *VC, err error) {
+func (e *Engine) genFuncOnce(key string, con *Contract) (vc *VC, err error) {
 	fn := e.Funcs[key]
 	if fn == nil {
 		return nil, fmt.Errorf("%s:%d: contract for unknown function %s", con.File, con.Line, key)
@@ -106,10 +106,10 @@ func (vc *VC) run() {
 				panic(specErr("known_findings.json: region of " + f.Obligation + ": " + err.Error()))
 			}
 			r := vc.evalBool(env, rx)
-			if old, ok := vc.regions[f.Obligation]; ok {
+			if old, ok := vc.regions[normOrd(f.Obligation)]; ok {
 				r = sOr(old, r)
 			}
-			vc.regions[f.Obligation] = r
+			vc.regions[normOrd(f.Obligation)] = r
 		}
 	}
 	vc.applyGhostEntry(st)
@@ -687,7 +687,7 @@ func (vc *VC) frameObligations(reach string, st *State, suffix string) {
 	}
 	sort.Strings(names)
 	for _, k := range names {
-		if k == "alloc" || vc.modifiable(k) || isIterGhost(k) {
+		if k == "alloc" || vc.modifiable(k) || isIterGhost(k) || isCursorGhost(k) { // cursorghost.go (x-c01)
 			continue
 		}
 		cur := st.vars[k]
